@@ -791,9 +791,20 @@ def gen_find_case(rng):
             before = rng.choice([1, 3, allowance or 2, rng.randrange(4, max(5, length // 5))])
             after = rng.choice([1, 3, allowance or 2, rng.randrange(4, max(5, length // 5))])
             parts = [(length - before, length), (0, after)]
+            # further exons on one or both sides of the origin (the gene's extent reaches to the outermost ones)
+            if rng.random() < 0.4 and length >= 90:
+                if rng.random() < 0.6:
+                    far = length - before - rng.randrange(4, max(5, length // 6))
+                    parts.insert(0, (max(after + 12, far - rng.randrange(6, max(7, length // 6))), far))
+                if rng.random() < 0.6 and parts[0][0] - after > 30:
+                    near = after + rng.randrange(4, max(5, length // 8))
+                    parts.append((near, min(parts[0][0] - 8, near + rng.randrange(6, max(7, length // 6)))))
+            before_count = len(genes)
             add(parts if strand == 1 else parts[::-1], strand)
+            if len(genes) == before_count:
+                continue
             genes[-1]["origin"] = True
-            span = (0, after)
+            span = (0, max(e for s, e in parts if s < length // 2))
         previous = span
 
     # area
@@ -904,7 +915,7 @@ def run(ctx):
         case, style, how, has_orf = gen_scan_case(rng)
         run_scan_case(ctx, case, style, how, has_orf)
     rng = ctx.rng("find")
-    for _ in ctx.cases(ctx.quota(2500, 400000)):
+    for _ in ctx.cases(ctx.quota(6000, 400000)):
         case, how = gen_find_case(rng)
         run_find_case(ctx, case, how)
 
